@@ -699,6 +699,10 @@ def run(tier, args):
         "changes C05-5 (is_next_to ignores data nodes) and C07-5 (_update_stack_args before adjust_slot_offsets) are caught by their probes and by "
         "random programs of most profiles; bt/bts/btr/btc with register index and vpgatherdd zmm{k} are generated (probes bt-register-base-spilled, "
         "gather-mask-written)",
+        "integer parameters are always passed by the harness as full 64-bit values, so the bits above an 8/16/32-bit parameter are junk in registers "
+        "and in stack slots (legal per ABI); a signature with 20 narrow parameters (u8/i8/u16/i16/u32/i32) exists and parameters are bound to equal "
+        "and to wider virtual registers (unsigned -> zero extension, signed parameter + signed register -> sign extension, AsmJit's own cast table); "
+        "probe narrow-stack-parameter-bound-to-wide-vreg",
         "not generated: calling conventions other than SysV/cdecl for helper calls (x86-32: cdecl/stdcall/fastcall function signatures are compiled only), "
         "MMX/x87 registers, ms_abi callees, string instructions with REP",
     ]
